@@ -379,6 +379,9 @@ func replayOne(cfg Config, path string) int {
 	res := r.replayLine(l)
 	for _, f := range res.fails {
 		for _, p := range f.Props {
+			if p == v.Property && cfg.Known.Match(p, &f, l) != "" {
+				continue // a known finding does not confirm anything
+			}
 			if p == v.Property {
 				fmt.Printf("REPRODUCED property=%s inst=%s %s: %s exp=%v got=%v\n", p, f.Inst, f.Cat, f.What, f.Exp, f.Got)
 				return 1
